@@ -169,6 +169,11 @@ func (p *provider) Release(ctx context.Context, curs Cursor) State {
 	res := cur.commit(ctx)
 	p.lock.Lock()
 	e, ok := p.curs[cur.Id()]
+	if ok && e.Val.(*curHldr).cur != cur {
+		// the holder found under this id caches another cursor (ours was dropped while busy, or never
+		// cached, and a later request built a new one under the same id): ours is not in the cache
+		ok = false
+	}
 	if !ok {
 		p.lock.Unlock()
 		p.logger.Debug("Releasing cursor, which is not in the cache anymore: ", cur)
